@@ -337,6 +337,11 @@ class ExprMixin:
             if f:
                 out.append((f, Exc("AttributeError", self.line(node), attr)))
             return out
+        if isinstance(o, VAtom) and o.kind.name == "Path" and attr in ("suffix", "name"):
+            from . import fsmodel
+            if attr == "suffix":
+                return [(st, VStr(fsmodel.suffix(o.t)))]
+            return [(st, VAtom(fsmodel.PATH, fsmodel.basename(o.t)))]
         if isinstance(o, VAtom) and isinstance(o.kind, Abstract):
             if attr in o.kind.attrs:
                 return [(st, o.kind.attr(o, attr))]
@@ -344,6 +349,8 @@ class ExprMixin:
                 return [(st, VFunc("amethod", (o.kind, attr), o))]
             return [(st, Exc("AttributeError", self.line(node), attr))]
         if isinstance(o, VFunc):
+            if o.what == "module" and o.payload == "logging" and attr in ("DEBUG", "INFO", "WARNING", "ERROR", "CRITICAL"):
+                return [(st, VInt({"DEBUG": 10, "INFO": 20, "WARNING": 30, "ERROR": 40, "CRITICAL": 50}[attr]))]
             if o.what == "module":
                 dotted = f"{o.payload}.{attr}"
                 if dotted.startswith("codebasin"):
@@ -357,6 +364,8 @@ class ExprMixin:
             if o.what == "class":
                 fi = self.index.find_method(o.payload, attr)
                 if fi is not None:
+                    if fi.is_classmethod:
+                        return [(st, VFunc("method", fi, o))]
                     return [(st, VFunc("func", fi))]
                 for c in self.index.mro(o.payload):
                     cc = self.index.class_by_name.get(c)
@@ -485,6 +494,10 @@ class ExprMixin:
             raise Unsupported("slice step")
         if isinstance(cv, VEmptySeq):
             return [(st, st.alloc(HeapObj("cell", val=cv)))]
+        if isinstance(cv, VSeq) and hi is None and lo is not None:
+            clo = concrete_int(ops.deref(st, lo).t)
+            if clo is not None and clo >= 0:
+                return [(st, st.alloc(HeapObj("cell", val=cv.tail_from(clo))))]
         if isinstance(cv, (VSeq, VStr)):
             n = cv.length() if isinstance(cv, VSeq) else z3.Length(cv.t)
 
@@ -509,6 +522,24 @@ class ExprMixin:
                 r = cv.sub(a, ln)
             return [(st, st.alloc(HeapObj("cell", val=r)))]
         raise Unsupported(f"slice of {cv!r}")
+
+    def expr_Yield(self, st, n):
+        """`yield x` appends x to the ghost output of the generator (a set view: which
+        values are produced; order and multiplicity are outside this model)"""
+        out = []
+        for s, v in self.eval(st, n.value):
+            if isinstance(v, Exc):
+                out.append((s, v))
+                continue
+            c = s.ghost.get("yield_cell")
+            if c is None:
+                raise Unsupported("yield outside a generator contract")
+            cur = s.heap[c.oid].val
+            x = ops.deref(s, v)
+            base = cur.to(x.kind) if isinstance(cur, VEmptySet) else cur
+            s.heap[c.oid].val = base.add(ops.coerce(s, x, base.elem))
+            out.append((s, VNone()))
+        return out
 
     # ---- comprehensions
     def expr_ListComp(self, st, n):
